@@ -2,12 +2,13 @@
    Model: model/MempoolPersist.v (DumpMempool / LoadMempool of src/node/mempool_persist.cpp over an abstract
    transaction codec (T, ser, unser, txid) and an abstract normal-submission verdict `accept`).
    Premises that stay in the statements: the codec round trip `unser (ser t ++ rest) = Ok t rest` on well-formed
-   transactions (discharged for the SerTx codec by C55_instance_codec_roundtrip) and, for the truncation theorem
-   only, `a strict prefix of a serialized transaction does not parse`. *)
+   transactions and, for the truncation theorem only, `a strict prefix of a serialized transaction does not parse`.
+   Both are discharged for the SerTx codec, which the extracted model runs (C55_instance_codec_roundtrip,
+   C55_instance_codec_prefix), so that C55_instance_truncated_file_is_a_failed_load has no codec premise left. *)
 From Coq Require Import NArith.
 From BV Require Import lib.Ints gen.Params_gen model.SerBase model.SerTx model.CryptoSHA256 model.MempoolPersist
                        proofs.MempoolPersistLemmas proofs.MempoolPersistPool proofs.MempoolPersistRestore
-                       proofs.MempoolPersistSafety proofs.MempoolPersistTrunc proofs.MempoolPersistMain.
+                       proofs.MempoolPersistSafety proofs.MempoolPersistTrunc proofs.MempoolPersistMain proofs.MempoolPersistTxPrefix.
 Local Open Scope Z_scope.
 
 (* The file format round-trips: every snapshot (records with times and fee deltas, extra deltas, unbroadcast set),
@@ -118,6 +119,23 @@ Print Assumptions C55_arbitrary_file_never_removes_and_adds_only_accepted.
 Theorem C55_instance_codec_roundtrip : forall t rest, tx_ok t -> tx_unser (tx_ser t ++ rest) = Ok t rest.
 Proof. exact instance_roundtrip. Qed.
 Print Assumptions C55_instance_codec_roundtrip.
+
+(* ... and the prefix premise: no strict prefix of a serialized transaction parses. *)
+Theorem C55_instance_codec_prefix : forall t n, tx_ok t -> (n < length (tx_ser t))%nat -> exists e, tx_unser (firstn n (tx_ser t)) = Err e.
+Proof. exact instance_prefix. Qed.
+Print Assumptions C55_instance_codec_prefix.
+
+(* The truncation theorem for the real transaction codec, without codec premises. *)
+Theorem C55_instance_truncated_file_is_a_failed_load :
+  forall (accept : pool -> tx -> Z -> bool) (now expiry : Z) (opts : load_opts)
+         (v1 : bool) (key : list N) (d : snapshot tx) (p : pool) (n : nat),
+  snapshot_wf tx tx_ok d -> length key = 8%nat -> (n < length (encode_file tx tx_ser v1 key d))%nat ->
+  lres_ok (load_file tx tx_unser tx_txid accept now expiry opts (firstn n (encode_file tx tx_ser v1 key d)) p) = false.
+Proof.
+  intros accept now expiry opts v1 key d p n W K Hn.
+  exact (load_truncated_fails tx tx_ser tx_unser tx_txid tx_ok accept now expiry opts instance_roundtrip instance_prefix v1 key d p n W K Hn).
+Qed.
+Print Assumptions C55_instance_truncated_file_is_a_failed_load.
 
 (* Non-vacuity: a concrete pool of two transactions (one with a fee delta and an unbroadcast mark, one expired),
    an extra delta for an absent txid, dumped with a non-trivial key and loaded by the extracted instance. *)
